@@ -715,7 +715,9 @@ impl Monitor for MetaMonitor {
         // what it reports as set must be what every later check - reopen included - finds.
         if let Step::Api(op @ (Op::SetState(..) | Op::SetCreated(..) | Op::SetModified(..) | Op::SetClsid(..))) = step {
             if self.expect_ok && self.rng.chance(1, 12) {
-                let k = self.rng.below(30);
+                // (an entry is rewritten with 47 small writes, each after a seek: up to 96, so that the
+                // fault may also come after the new value has reached the file)
+                let k = self.rng.below(96);
                 // variant B (storages and the root): what fails is a setter of a *different*
                 // field of the same object, and it is not repeated; whatever the object shows
                 // afterwards (the old or the new value - the call failed) is adopted, and the
@@ -739,9 +741,47 @@ impl Monitor for MetaMonitor {
                     None
                 };
                 sess.shared.arm(vec![crate::backend::Fault { kinds: crate::backend::K_WRITE | crate::backend::K_SEEK, k, err: std::io::ErrorKind::Other, sticky: false, partial: false }]);
+                let bytes_before = sess.shared.bytes();
                 let r = engine::exec_api_on(sess.cf(), other.as_ref().unwrap_or(op));
                 sess.shared.disarm();
-                if r.is_err() {
+                // the failed call changed nothing in the file (the fault came before the
+                // first write that makes a difference)
+                let nothing_written = sess.shared.bytes() == bytes_before;
+                if r.is_err() && !nothing_written {
+                    rep.count("failed_setter_had_written_part_of_the_entry");
+                }
+                // Sometimes the caller now sets the same field to what lookups report (puts it
+                // back, as far as it can tell).  That call succeeds, so C17 applies to it in
+                // full: what it set is what lookups and the stored bytes show - also if the
+                // failed call had already put part of the entry into the file.
+                if r.is_err() && self.rng.chance(1, 2) {
+                    if let Ok(e) = sess.cf().entry(&path) {
+                        let live = engine::view_of(&e);
+                        let to_ns = |t: Option<u64>| (t.unwrap_or(0) as i128 - model::EPOCH_TICKS as i128) * 100;
+                        let again = match other.as_ref().unwrap_or(op) {
+                            Op::SetState(..) => Op::SetState(path.clone(), live.state),
+                            Op::SetClsid(..) => Op::SetClsid(path.clone(), live.clsid),
+                            Op::SetCreated(..) => Op::SetCreated(path.clone(), to_ns(live.ctime)),
+                            _ => Op::SetModified(path.clone(), to_ns(live.mtime)),
+                        };
+                        match engine::exec_api_on(sess.cf(), &again) {
+                            Err(e2) => {
+                                self.pending = Some(("setter after a failed setter | err".to_string(), format!("{:?} failed (one underlying call refused); then {:?} (the value lookups report): {e2}", other.as_ref().unwrap_or(op), again)));
+                            }
+                            Ok(_) => {
+                                rep.count("reported_value_set_again_after_a_failed_setter");
+                                if let (Ok(e3), Ok(d)) = (sess.cf().entry(&path), engine::dump_bytes(&sess.shared.bytes(), Mode::Permissive)) {
+                                    let now = engine::view_of(&e3);
+                                    if let Some((stored, _)) = d.iter().find(|(v, _)| v.path == now.path) {
+                                        if (stored.state, stored.clsid, stored.ctime, stored.mtime) != (now.state, now.clsid, now.ctime, now.mtime) || (now.state, now.clsid, now.ctime, now.mtime) != (live.state, live.clsid, live.ctime, live.mtime) {
+                                            self.pending = Some(("setter Ok after a failed setter | lookups and the stored file disagree".to_string(), format!("{:?} failed (one underlying call refused, {} after part of the entry had been written); then {:?} returned Ok; entry({path}) shows state {:#x} clsid {:02x?} created {:?} modified {:?}, the stored bytes reopen with state {:#x} clsid {:02x?} created {:?} modified {:?}", other.as_ref().unwrap_or(op), if nothing_written { "not" } else { "possibly" }, again, now.state, now.clsid, now.ctime, now.mtime, stored.state, stored.clsid, stored.ctime, stored.mtime)));
+                                        }
+                                    }
+                                }
+                            }
+                        }
+                    }
+                } else if r.is_err() && nothing_written {
                     // whichever value the failed call left behind, lookups and the stored
                     // bytes must tell the same story (the one-shot fault let nothing through)
                     if let Ok(e) = sess.cf().entry(&path) {
